@@ -337,6 +337,8 @@ Record call_out (sc : scen) (t : tid) (lc : tlocal) (o : apiop) (w : world) (out
               | ROk | RPanicked => scoped_shape sc t c m w w'
               | _ => exists evs, w_trace w' = evs ++ w_trace w /\ Forall nomark_ev evs
               end;
+  (* whatever the outcome (a call cut because it has to wait included): no release by a non-holder *)
+  cq_nobad : exists evs, w_trace w' = evs ++ w_trace w /\ Forall nobad_ev evs;
   (* a closure that panics makes the call panic *)
   cq_nook : forall c m lent body,
               (o = AAcquire c m (FScoped lent body) \/ o = AAcquire c m (FScopedTry lent body)) ->
@@ -359,6 +361,15 @@ Lemma frame_clean a b : frame a b -> exists evs, w_trace b = evs ++ w_trace a /\
 Proof.
   intros F. destruct (fr_tr _ _ F) as [evs [T U]]. exists evs. split; [exact T|].
   eapply Forall_impl; [|exact U]. intros e He. destruct e; simpl in *; tauto.
+Qed.
+
+
+Lemma clean_to_nobad (w w' : world) :
+  (exists evs, w_trace w' = evs ++ w_trace w /\ Forall clean_ev evs) ->
+  exists evs, w_trace w' = evs ++ w_trace w /\ Forall nobad_ev evs.
+Proof.
+  intros [evs [T F]]. exists evs. split; [exact T|]. eapply Forall_impl; [|exact F].
+  intros e He. destruct e as [t0 k l r| | | |]; try exact I. destruct r; simpl in *; tauto.
 Qed.
 
 (* a blocked acquisition blocks the whole scoped call *)
@@ -396,7 +407,7 @@ Section CallAcq.
       rewrite Rc in R. inversion R; subst out w'. clear R.
       assert (Fin : snd (api_fin e lc (AAcquire c m FGuard) (ODone (VNat n))) = (if Nat.eqb n 2 then RPoisoned else ROk)).
       { destruct Hn as [-> | ->]; reflexivity. }
-      constructor; fold e; rewrite Fin.
+      constructor; fold e; rewrite ?Fin.
       + destruct (Nat.eqb n 2); discriminate.
       + intros _. eapply eff_quiet; [exact E2|]. eapply eff_quiet; [exact E1|exact Q].
       + intros _ x. rewrite (eff_raw _ _ _ E2), (eff_raw _ _ _ E1). cbn [raw_after].
@@ -404,6 +415,7 @@ Section CallAcq.
       + intros c' m' f' Heq _. inversion Heq; subst. rewrite (shape_of_coll _ _ _ Hc). exact Can.
       + intros _. apply (eff_tr _ _ _ (eff_trans _ _ _ _ _ E1 E2)).
       + intros c' m' X; discriminate X.
+      + apply clean_to_nobad, (eff_tr _ _ _ (eff_trans _ _ _ _ _ E1 E2)).
       + intros c' m' l' b' [X|X] _; discriminate X.
     - destruct L as [w1 R1].
       assert (Rc : run nopw t (with_key true false (raw_lock (e_fuel e) m a ;; see_all (gpoisons (gitems s)) ;; poison_result s)) w
@@ -413,6 +425,7 @@ Section CallAcq.
       constructor; cbn [api_fin snd stop_code]; try (intros H; discriminate H); try reflexivity.
       + intros c' m' f' _ H. discriminate H.
       + intros c' m' X; discriminate X.
+      + fold a in R1. apply (raw_lock_nobad t m (e_am e) s (e_fuel e) w _ _ Ha ND Q Hf R1).
       + intros c' m' l' b' [X|X] _; discriminate X.
   Qed.
 End CallAcq.
@@ -447,7 +460,7 @@ Section CallAcq2.
       rewrite Rc in R. inversion R; subst out w'. clear R.
       assert (Fin : snd (api_fin e lc (AAcquire c m FTry) (ODone (VNat n))) = (if Nat.eqb n 2 then RPoisoned else ROk)).
       { destruct Hn as [-> | ->]; reflexivity. }
-      constructor; fold e; rewrite Fin.
+      constructor; fold e; rewrite ?Fin.
       + destruct (Nat.eqb n 2); discriminate.
       + intros _. eapply eff_quiet; [exact E2|]. eapply eff_quiet; [exact E1|exact Q].
       + intros _ x. rewrite (eff_raw _ _ _ E2), (eff_raw _ _ _ E1). cbn [raw_after].
@@ -455,6 +468,7 @@ Section CallAcq2.
       + intros c' m' f' Heq _. inversion Heq; subst. rewrite (shape_of_coll _ _ _ Hc). exact Can.
       + intros _. apply (eff_tr _ _ _ (eff_trans _ _ _ _ _ E1 E2)).
       + intros c' m' X; discriminate X.
+      + apply clean_to_nobad, (eff_tr _ _ _ (eff_trans _ _ _ _ _ E1 E2)).
       + intros c' m' l' b' [X|X] _; discriminate X.
     - assert (Rc : run nopw t (with_key true false
                   (Bind (raw_try m a)
@@ -470,6 +484,7 @@ Section CallAcq2.
       + intros c' m' f' _ H. discriminate H.
       + intros _. apply (eff_tr _ _ _ E1).
       + intros c' m' X; discriminate X.
+      + apply clean_to_nobad, (eff_tr _ _ _ E1).
       + intros c' m' l' b' [X|X] _; discriminate X.
   Qed.
 
@@ -503,6 +518,7 @@ Section CallAcq2.
           split; [intros x; rewrite (eff_raw _ _ _ Ea); now rewrite (shape_of_coll _ _ _ Hc)|].
           split; [exact Fb|]. split; [exact Tb|exact Ftl]. }
         destruct (existsb is_cpanic body); exact Sh.
+      + apply clean_to_nobad, (ep_tr _ _ _ _ E2).
       + intros c' m' l' b' [X|X] Hp; inversion X; subst. rewrite Hp. discriminate.
     - pose proof (raw_lock_all_or_wait t m (e_am e) s Ha ND (e_fuel e) w Q Hf) as L. rewrite Can in L.
       destruct L as [w1 R1]. fold a in R1.
@@ -510,6 +526,7 @@ Section CallAcq2.
       constructor; cbn [api_fin snd stop_code]; try (intros H; discriminate H); try reflexivity.
       + intros c' m' f' _ H. discriminate H.
       + intros c' m' _. apply (run_nomark nopw t _ _ _ _ (alg_nomark _ (raw_lock_ops (e_fuel e) m a)) R1).
+      + apply (raw_lock_nobad t m (e_am e) s (e_fuel e) w _ _ Ha ND Q Hf R1).
       + intros c' m' l' b' _ _. discriminate.
   Qed.
 
@@ -550,6 +567,7 @@ Section CallAcq2.
           split; [intros x; rewrite (eff_raw _ _ _ E1); now rewrite (shape_of_coll _ _ _ Hc)|].
           split; [exact Fb|]. split; [exact Tb|exact Ftl]. }
         destruct (existsb is_cpanic body); exact Sh.
+      + apply clean_to_nobad, (clean_trans w w1 w2); [apply (eff_tr _ _ _ E1)|apply (ep_tr _ _ _ _ E2)].
       + intros c' m' l' b' [X|X] Hp; inversion X; subst. rewrite Hp. discriminate.
     - cbn [run] in R. inversion R; subst out w'. clear R.
       constructor; cbn [api_fin snd stop_code].
@@ -559,6 +577,7 @@ Section CallAcq2.
       + intros c' m' f' _ H. discriminate H.
       + intros _. apply (eff_tr _ _ _ E1).
       + intros c' m' _. apply (run_nomark nopw t _ _ _ _ (alg_nomark _ (raw_try_ops m (alg_of (e_am e) s))) R1).
+      + apply clean_to_nobad, (eff_tr _ _ _ E1).
       + intros c' m' l' b' _ _. discriminate.
   Qed.
 End CallAcq2.
@@ -579,6 +598,7 @@ Proof.
   - intros c m f _ H. rewrite Hg in H. discriminate H.
   - intros _. exact Hc.
   - intros c m X. rewrite Hsc in X. discriminate X.
+  - now apply clean_to_nobad.
   - intros c m l b [X|X] _; subst o; discriminate Hsc.
 Qed.
 
@@ -613,6 +633,7 @@ Proof.
     + intros c m f X. discriminate X.
     + intros _. apply (eff_tr _ _ _ E1).
     + intros c m X. discriminate X.
+    + apply clean_to_nobad, (eff_tr _ _ _ E1).
     + intros c m l b [X|X] _; discriminate X.
   - (* AGuardUnlock *)
     destruct (guard lc) as [[gm items]|] eqn:G; [|discriminate]. injection Hp as Hp; subst p. cbn [g_mode g_items] in R.
@@ -625,6 +646,7 @@ Proof.
     + intros c m f X. discriminate X.
     + intros _. apply (eff_tr _ _ _ E1).
     + intros c m X. discriminate X.
+    + apply clean_to_nobad, (eff_tr _ _ _ E1).
     + intros c m l b [X|X] _; discriminate X.
   - (* AGuardForget *)
     destruct (guard lc); [|discriminate]. injection Hp as Hp; subst p. cbn in R. inversion R; subst out w'.
@@ -650,6 +672,7 @@ Proof.
       * intros c m f X. discriminate X.
       * intros _. apply (ep_tr _ _ _ _ E1).
       * intros c m X. discriminate X.
+      * apply clean_to_nobad, (ep_tr _ _ _ _ E1).
       * intros c m l b [X|X] _; discriminate X.
     + injection Hp as Hp; subst p.
       assert (Rr : run nopw t (Bind (with_key false (haskey lc) skip) (fun _ => Throw)) w =
@@ -662,6 +685,7 @@ Proof.
       * intros c m f X. discriminate X.
       * intros _. destruct (haskey lc); (exists []; split; [reflexivity|constructor]).
       * intros c m X. discriminate X.
+      * destruct (haskey lc); (exists []; split; [reflexivity|constructor]).
       * intros c m l b [X|X] _; discriminate X.
   - (* AIsPoisoned *)
     destruct (coll (sc_env sc) c) as [[| | | | | |q s']|]; try discriminate. injection Hp as Hp; subst p.
